@@ -113,6 +113,8 @@ pub trait FxSign: Fx {
     fn p_npot(_x: Self) -> Option<Self> { None }
     fn p_cnpot(_x: Self) -> Option<Option<Self>> { None }
     fn p_is_pow2(_x: Self) -> Option<bool> { None }
+    fn p_is_neg(_x: Self) -> Option<bool> { None }
+    fn p_is_pos(_x: Self) -> Option<bool> { None }
 }
 macro_rules! impl_sign {
     (signed $Fixed:ident, $LeEq:ident) => {
@@ -123,6 +125,8 @@ macro_rules! impl_sign {
             fn p_neg(x: Self) -> Option<Self> { Some(-x) }
             fn p_abs(x: Self) -> Option<Self> { Some(x.abs()) }
             fn p_signum(x: Self) -> Option<Self> { Some(x.signum()) }
+            fn p_is_neg(x: Self) -> Option<bool> { Some(x.is_negative()) }
+            fn p_is_pos(x: Self) -> Option<bool> { Some(x.is_positive()) }
         }
     };
     (unsigned $Fixed:ident, $LeEq:ident) => {
